@@ -384,7 +384,9 @@ fn sort_elem(rng: &mut Rng, kind: usize) -> V {
             if rng.chance(1, 2) { V::I(rng.range(-2, 4)) } else { fbits(*rng.pick(&[-2.0, -1.0, 0.0, 0.5, 1.0, 2.0, 2.5, 3.0, -0.0])) }
         }
         2 => vs(*rng.pick(&["", "a", "b", "ab", "aa", "B", "é", "z", "a"])),
-        _ => fbits(*rng.pick(&[1e300, -1e300, 0.0, -0.0, 1.5, f64::INFINITY, f64::NEG_INFINITY, 1.0])),
+        // NaN included: `<` on KNumber goes through `Ord`, which orders NaN last, so the comparator
+        // stays a total preorder
+        _ => fbits(*rng.pick(&[1e300, -1e300, 0.0, -0.0, 1.5, f64::INFINITY, f64::NEG_INFINITY, 1.0, f64::NAN])),
     }
 }
 
